@@ -214,7 +214,7 @@ def make_config(rng, prog, how, tmpdir):
     return apply
 
 
-def run(pid, tier, seed, res, p_sub=None, p_flag=None):
+def run(pid, tier, seed, res, p_sub=None, p_flag=None, only=None):
     import os
     rng = random.Random(seed * 15485863 + 3)
     n = 140 if tier == "quick" else 2500
@@ -229,8 +229,12 @@ def run(pid, tier, seed, res, p_sub=None, p_flag=None):
         progs.append(json.load(open(f))["prog"])
     for _ in range(n):
         progs.append(kvalue.gen_prog(rng, max_stmts=8 if tier == "quick" else 14, p_sub=focus["p_sub"], p_flag=focus["p_flag"]))
+    fixed_args = None
+    if only is not None:
+        progs = [o["prog"] for o in only]
+        fixed_args = [[kvalue.Const(a[1], bool(a[2])) for a in o["args"]] for o in only]
     for pi, prog in enumerate(progs):
-        argsets = [kvalue.gen_args(rng, prog) for _ in range(2)]
+        argsets = [kvalue.gen_args(rng, prog) for _ in range(2)] if fixed_args is None else [fixed_args[pi], fixed_args[pi]]
         for ai, args in enumerate(argsets):
             how = rng.choice(CONFIGS) if ai == 1 else "none"
             is_async = rng.random() < 0.35
